@@ -465,10 +465,19 @@ pub(crate) mod verif_probe {
         } else {
             let _ = a.write_all(&unhex(v["client_hex"].as_str().unwrap_or(""))).await;
         }
+        let mut a_task = a_task;
+        if v["drop"].as_bool() == Some(true) {
+            // the client's socket vanishes right after its last byte: its reads hit EOF and every write to it fails
+            { log.lock().phase = 3; }
+            drop(a);
+            let a_task_result = match timeout(Duration::from_secs(5), &mut a_task).await {
+                Ok(Ok(Ok(()))) => "ok".to_string(), Ok(Ok(Err(e))) => format!("err: {:?}", e),
+                Ok(Err(e)) => if e.is_panic() { "panic".to_string() } else { "cancelled".to_string() }, Err(_) => "still-running".to_string() };
+            return finish_handle_script(&v, &db, &usern, &log, &csmap, &shutdown_tx, &pool, a_task_result, a_out).await;
+        }
         a_out.extend(drain(&mut a, 250).await);
         if v["eof"].as_bool().unwrap_or(true) { { log.lock().phase = 3; } let _ = a.shutdown().await; }
         let a_task_result;
-        let mut a_task = a_task;
         loop {
             a_out.extend(drain(&mut a, 200).await);
             match timeout(Duration::from_millis(50), &mut a_task).await {
@@ -479,6 +488,12 @@ pub(crate) mod verif_probe {
             }
         }
         a_out.extend(drain(&mut a, 100).await);
+        finish_handle_script(&v, &db, &usern, &log, &csmap, &shutdown_tx, &pool, a_task_result, a_out).await
+    }
+
+    async fn finish_handle_script(v: &Value, db: &str, usern: &str, log: &SharedLog, csmap: &ClientServerMap, shutdown_tx: &tokio::sync::broadcast::Sender<()>,
+                                  pool: &ConnectionPool, a_task_result: String, a_out: Vec<u8>) -> Value {
+        let db = db.to_string(); let usern = usern.to_string(); let v = v.clone();
         let paused_at_end = pool.paused();
         // what SHOW CLIENTS / SHOW SERVERS would list for this pool now (A idle or gone)
         tokio::time::sleep(Duration::from_millis(30)).await;
